@@ -20,7 +20,7 @@ func init() {
 
 func c14() []*Ob {
 	return []*Ob{
-		{Prop: "C14", ID: "C14.1", Engine: "DOM", Floor: 4,
+		{Prop: "C14", ID: "C14.1", Engine: "DOM", Floor: 2,
 			Desc: "unknown means 'may intersect': Info.IsIntersecting returns false only for DocsTotal == 0 or from the border test, and true under Distribution == nil; MIDsDistribution.IsIntersecting returns true under isUndefined(); UnmarshalJSON leaves the distribution untouched on a decode error",
 			Check: func(c *Ctx) {
 				if fn := c.Fn("(*frac.Info).IsIntersecting"); fn != nil {
@@ -116,7 +116,7 @@ func c14() []*Ob {
 					}
 				}
 			}},
-		{Prop: "C14", ID: "C14.2", Engine: "PAIR(units)+FIELDS", Floor: 5,
+		{Prop: "C14", ID: "C14.2", Engine: "PAIR(units)+FIELDS", Floor: 3,
 			Desc: "persisted units agree: MarshalJSON/UnmarshalJSON of MIDsDistribution use UnixMilli<->time.UnixMilli for from/to, Seconds()<->time.Second* for the bucket, and every field of the JSON shadow struct is written and read; the bitmask is restored with the size computed from the restored borders",
 			Check: func(c *Ctx) {
 				m, u := c.Fn("(*seq.MIDsDistribution).MarshalJSON"), c.Fn("(*seq.MIDsDistribution).UnmarshalJSON")
@@ -183,7 +183,7 @@ func c14() []*Ob {
 					}
 				}
 			}},
-		{Prop: "C14", ID: "C14.3", Engine: "SIBLING", Floor: 5,
+		{Prop: "C14", ID: "C14.3", Engine: "SIBLING", Floor: 3,
 			Desc: "one predicate for search and fetch: List.FilterInRange keeps a fraction iff Fraction.IsIntersecting; Contains(id) is IsIntersecting(id, id) in Active and Sealed; proxyFrac delegates both to the current fraction",
 			Check: func(c *Ctx) {
 				if fn := c.Fn("(fracmanager.List).FilterInRange"); fn != nil {
@@ -233,7 +233,7 @@ func c14() []*Ob {
 					}
 				}
 			}},
-		{Prop: "C14", ID: "C14.4", Engine: "SIBLING+ORDER+DOM", Floor: 4,
+		{Prop: "C14", ID: "C14.4", Engine: "SIBLING+ORDER+DOM", Floor: 2,
 			Desc: "one index function, complete map: Add and IsIntersecting both go through midToIndex; Info.BuildDistribution adds every id of the fraction (no id is skipped) and runs before the info block is packed",
 			Check: func(c *Ctx) {
 				mi := Callee("(*seq.MIDsDistribution).midToIndex")
@@ -282,7 +282,7 @@ func c14() []*Ob {
 					MustPrecede(c, fn, Callee("(*frac.Info).BuildDistribution"), "info.BuildDistribution", Callee("(*frac.DiskBlocksWriter).writeInfoBlock"), "writeInfoBlock")
 				}
 			}},
-		{Prop: "C14", ID: "C14.5", Engine: "PROV+ORDER", Floor: 2,
+		{Prop: "C14", ID: "C14.5", Engine: "PROV+ORDER", Floor: 1,
 			Desc: "the fetch window covers every requested id: fracmanager.sortIDs returns the minimum and maximum MID from the ends of the sorted copy (after sorting), and groupIDsByFraction passes exactly those to FilterInRange",
 			Check: func(c *Ctx) {
 				if fn := c.Fn("fracmanager.sortIDs"); fn != nil {
